@@ -139,12 +139,41 @@ package server
 //@ modifies heap, ghost(q.$adds)
 //@ ensures [C01] old(skipQos0(srv, clientID, msg.QoS)) ==> q.$adds == old(q.$adds)
 //@ ensures [C01] !old(skipQos0(srv, clientID, msg.QoS)) ==> q.$adds == old(q.$adds) + 1
-//@ call Add#1 assert [C01] elem.MessageWithID.(type *queue.Publish) && elem.MessageWithID.(*queue.Publish).Message == msg
-//@ call Add#1 assert [C01] msg.QoS == min(old(msg.QoS), old(sub.QoS))
-//@ call Add#1 assert [C01] msg.Dup == false
-//@ call Add#1 assert [C01] msg.Retained == (old(msg.Retained) && old(sub.RetainAsPublished))
-//@ call Add#1 assert [C01] msg.PacketID == old(msg.PacketID) && msg.Topic == old(msg.Topic) && msg.Payload == old(msg.Payload)
-//@ call Add#1 assert [C12] elem.At == now
-//@ call Add#1 assert [C12] lifetimeNs(old(msg.MessageExpiry), old(srv.config.MQTT.MessageExpiry)) == 0 ==> elem.Expiry == 0
-//@ call Add#1 assert [C12] lifetimeNs(old(msg.MessageExpiry), old(srv.config.MQTT.MessageExpiry)) != 0 ==> elem.Expiry == now + lifetimeNs(old(msg.MessageExpiry), old(srv.config.MQTT.MessageExpiry))
-//@ call Add#1 assert [C12] msg.MessageExpiry == old(msg.MessageExpiry)
+//@ call Store.Add#1 assert [C01] elem.MessageWithID.(type *queue.Publish) && elem.MessageWithID.(*queue.Publish).Message == msg
+//@ call Store.Add#1 assert [C01] msg.QoS == min(old(msg.QoS), old(sub.QoS))
+//@ call Store.Add#1 assert [C01] msg.Dup == false
+//@ call Store.Add#1 assert [C01] msg.Retained == (old(msg.Retained) && old(sub.RetainAsPublished))
+//@ call Store.Add#1 assert [C01] msg.PacketID == old(msg.PacketID) && msg.Topic == old(msg.Topic) && msg.Payload == old(msg.Payload)
+//@ call Store.Add#1 assert [C12] elem.At == now
+//@ call Store.Add#1 assert [C12] lifetimeNs(old(msg.MessageExpiry), old(srv.config.MQTT.MessageExpiry)) == 0 ==> elem.Expiry == 0
+//@ call Store.Add#1 assert [C12] lifetimeNs(old(msg.MessageExpiry), old(srv.config.MQTT.MessageExpiry)) != 0 ==> elem.Expiry == now + lifetimeNs(old(msg.MessageExpiry), old(srv.config.MQTT.MessageExpiry))
+//@ call Store.Add#1 assert [C12] msg.MessageExpiry == old(msg.MessageExpiry)
+
+// ---------------------------------------------------------------------------
+// C12 — remaining lifetime forwarded to a v5 subscriber (client.pollNewMessages)
+//
+// at(iter, e) is e at the start of the current loop iteration, i.e. before this element was touched.
+// A message published with expiry interval E that waited w whole seconds is forwarded with E - w
+// (at least 1: the property must not disappear); other messages are forwarded unchanged.
+
+//@ spec func fwdExpiry(orig uint32, waitedNs int) int = (waitedNs / 1000000000 < int(orig)) ? int(orig) - waitedNs / 1000000000 : 1
+
+// client.write hands a packet to the write loop (a channel send): no effect on the heap. $nout counts the
+// packets handed over, $lastOut is the last one (ghost output log).
+//@ ghost field (client).nout int
+//@ ghost field (client).lastOut packets.Packet
+//@ func (*client).write trusted
+//@ requires client != nil
+//@ modifies ghost(client.$nout), ghost(client.$lastOut)
+//@ ensures client.$nout == old(client.$nout) || (client.$nout == old(client.$nout) + 1 && client.$lastOut == packets)
+
+//@ func (*client).pollNewMessages
+//@ props C12
+//@ requires client != nil && client.queueStore != nil
+//@ modifies heap, ghost(client.$nout), ghost(client.$lastOut)
+//@ loop 1 invariant len(ids) >= len(elems) - (rangeindex + 1)
+//@ call MessageToPublish#1 witness orig = at(iter, msg.MessageExpiry)
+//@ call MessageToPublish#1 witness waited = now - v.At
+//@ call MessageToPublish#1 assert [C12] (version == 5 && at(iter, msg.MessageExpiry) != 0) ==> int(msg.MessageExpiry) == fwdExpiry(at(iter, msg.MessageExpiry), now - v.At) && 1 <= msg.MessageExpiry && msg.MessageExpiry <= at(iter, msg.MessageExpiry)
+//@ call MessageToPublish#1 assert [C12] !(version == 5 && at(iter, msg.MessageExpiry) != 0) ==> msg.MessageExpiry == at(iter, msg.MessageExpiry)
+//@ call MessageToPublish#1 assert [C12] now >= v.At
